@@ -388,7 +388,7 @@ func generate(r *simrt.Rand, pf *Profile) (Cfg, *Program) {
 	return c, p
 }
 
-var idAlphabet = []string{"a", "job", "ünï", "x y", "\"q\"", "<&>", "0", "日本", "id-"}
+var idAlphabet = []string{"a", "job", "ünï", "x y", "\"q\"", "<&>", "0", "日本", "id-", "k\x1fv", "del\x7f", "tag\U000e0001", "nl\n"}
 
 func pick2(r *simrt.Rand, n int) string {
 	return idAlphabet[r.Intn(len(idAlphabet))] + itoa(n)
@@ -542,6 +542,13 @@ func init() {
 			pf.Cancel = []wop{{opCloseJob, 6}, {opPurge, 2}, {opCloseQueue, 1}}
 			pf.Releaser = 70
 			pf.CloseInFnPct = 5
+			if r.Chance(15) {
+				// a cancelled worker context / Stop while jobs run must not complete their handles early
+				pf.UseCtxPct = 70
+				pf.Ctrl = []wop{{opCancelCtx, 3}, {opStop, 1}, {opRestart, 1}}
+				pf.CtrlOps = [2]int{1, 2}
+				pf.Releaser = 100
+			}
 			bigBatch(pf, r, tier)
 			return generate(r, pf)
 		},
@@ -633,6 +640,15 @@ func init() {
 			pf.Cancellers, pf.CancelOps = [2]int{0, 1}, [2]int{1, 2}
 			pf.Cancel = []wop{{opCloseJob, 6}, {opPurge, 1}, {opCloseQueue, 2}}
 			pf.Releaser = 50
+			if r.Chance(30) {
+				// lifecycle events while jobs run: a running function keeps its job Processing
+				// through Pause/Stop/Restart and through a cancelled worker context
+				pf.UseCtxPct = 60
+				pf.GatedPct = 40
+				pf.Ctrl = []wop{{opCancelCtx, 3}, {opPause, 1}, {opResume, 1}, {opStop, 2}, {opRestart, 1}}
+				pf.CtrlOps = [2]int{1, 3}
+				pf.Releaser = 100
+			}
 			return generate(r, pf)
 		},
 		NonTrivial: func(ep *Episode) bool {
@@ -686,6 +702,10 @@ func init() {
 			pf.CtrlGapPct = 40
 			pf.Releaser = 100
 			pf.WarmPct = 25
+			// cancelled jobs in the backlog are skipped by the dispatcher: the slot accounting
+			// of that path belongs to the bound as well
+			pf.Cancellers, pf.CancelOps = [2]int{0, 1}, [2]int{1, 4}
+			pf.Cancel = []wop{{opCloseJob, 8}, {opPurge, 1}}
 			return generate(r, pf)
 		},
 		NonTrivial: func(ep *Episode) bool { return ep.W.maxInflight >= ep.W.effConc(ep.W.cfg.Conc) || ep.W.maxInflight >= 2 },
@@ -696,6 +716,12 @@ func init() {
 			pf := baseProfile()
 			pf.Conc = []int{1, 2, 3, 4, 8}
 			pf.Adds = [2]int{2, 6}
+			if r.Chance(20) {
+				// id and data must also survive the serialising queue kinds (plain workers)
+				pf.QKinds = []int{qkPers, qkPersPrio, qkDist, qkDistPrio}
+				pf.WKinds = []int{wkPlain}
+				pf.Producers = [2]int{2, 3}
+			}
 			pf.BatchPct, pf.BatchMax = 25, 6
 			pf.ErrPct, pf.PanicPct = 30, 25
 			pf.IDPct, pf.IDGenPct = 50, 50
